@@ -57,9 +57,9 @@ Prune(st, T, S) ==
 
 PayloadOK(K, st, mode, T, n) ==
   LET ks == KmersOfNode(K, st, n) IN
-  CASE mode = "sum"    -> n.d = <<SumSet(LAMBDA k : T[k].d[1], ks)>>
-    [] mode = "ids"    -> /\ n.d = SortSet(UNION {ToSet(T[k].d) : k \in ks})
-                          /\ Len(n.d) = SumSet(LAMBDA k : Len(T[k].d), ks)
+  CASE mode = "sum"    -> n.d = <<SumOver(LAMBDA k : T[k].d[1], ks)>>
+    [] mode = "ids"    -> /\ n.d = SortSet(UNION {SetOf(T[k].d) : k \in ks})
+                          /\ Len(n.d) = SumOver(LAMBDA k : Len(T[k].d), ks)
     [] mode = "colour" -> \A k \in ks : T[k].d = n.d
     [] OTHER -> FALSE
 
@@ -85,8 +85,8 @@ GraphFails(K, st, mode, T, nodes) ==
               /\ \A a \in OE(st, T, f).l :
                    LET w == Pred(f, a) IN Mergeable(K, st, mode, T, w, f) => InNode(n, C(st, w))
       V4 == \A n \in 1..NN : PayloadOK(K, st, mode, T, N(n))
-      V5 == \A n \in 1..NN : /\ ToSet(N(n).l) = OE(st, T, FirstK(K, N(n))).l
-                             /\ ToSet(N(n).r) = OE(st, T, LastK(K, N(n))).r
+      V5 == \A n \in 1..NN : /\ SetOf(N(n).l) = OE(st, T, FirstK(K, N(n))).l
+                             /\ SetOf(N(n).r) = OE(st, T, LastK(K, N(n))).r
       closed == Closed(K, st, T)
   IN {c \in {"V1", "V2a", "V2b", "V3", "V4", "V5"} :
         ~(CASE c = "V1"  -> V1
@@ -113,6 +113,13 @@ RefTable(K, st, thr, reads) ==
       r |-> UNION {ObsExts(K, st, reads, o).r : o \in g},
       d |-> <<Cardinality(g)>>]]
 
+\* the same with the payload of the given mode: count (sum) or the sorted set of 0-based read ids (colour)
+RefTableM(K, st, thr, reads, mode) ==
+  LET R == RefTable(K, st, thr, reads) IN
+  IF mode = "colour"
+  THEN [k \in DOMAIN R |-> [l |-> R[k].l, r |-> R[k].r, d |-> SortSet({o[1] - 1 : o \in RefGroup(K, st, reads, k)})]]
+  ELSE R
+
 \* ---- link lookup in a finished graph (graph.rs find_link) as an abstract function:
 \* {} or {<<node (1-based), arrival side, flip>>}
 Lookup(K, st, nodes, y, dir) ==
@@ -127,7 +134,7 @@ Lookup(K, st, nodes, y, dir) ==
 
 ExtK(x, dir, b) == IF dir = "R" THEN Succ(x, b) ELSE Pred(x, b)
 TermK(K, n, dir) == IF dir = "R" THEN LastK(K, n) ELSE FirstK(K, n)
-BasesOf(n, dir) == IF dir = "R" THEN ToSet(n.r) ELSE ToSet(n.l)
+BasesOf(n, dir) == IF dir = "R" THEN SetOf(n.r) ELSE SetOf(n.l)
 
 \* the k-mer table a graph denotes: interior k-mers carry their interior links, terminal k-mers the
 \* node's extensions; the node payload sits on the node's first k-mer (sum / ids) or on all (colour)
@@ -137,8 +144,8 @@ TableOfGraph(K, st, mode, g) ==
       PosOfKey(k) == CHOOSE p \in Pos : C(st, At(K, g[p[1]], p[2])) = k
   IN [k \in keys |->
         LET p == PosOfKey(k)  n == g[p[1]]  i == p[2]  x == At(K, n, i)
-            o == [l |-> IF i = 1 THEN ToSet(n.l) ELSE {n.s[i-1]},
-                  r |-> IF i = NK(K, n) THEN ToSet(n.r) ELSE {n.s[i+K]}]
+            o == [l |-> IF i = 1 THEN SetOf(n.l) ELSE {n.s[i-1]},
+                  r |-> IF i = NK(K, n) THEN SetOf(n.r) ELSE {n.s[i+K]}]
             e == IF st \/ x = k THEN o ELSE FlipE(o)
         IN [l |-> e.l, r |-> e.r,
             d |-> CASE mode = "sum" -> (IF i = 1 THEN n.d ELSE <<0>>)
@@ -160,6 +167,15 @@ TerminalLinks(K, st, nodes) ==
                 d \in {"L", "R"}} : n \in 1..Len(nodes)}
 Links(K, st, nodes) == InteriorLinks(K, st, nodes) \cup TerminalLinks(K, st, nodes)
 Blocks(K, st, nodes) == {<<KmersOfNode(K, st, nodes[n]), nodes[n].d>> : n \in 1..Len(nodes)}
+
+\* edges leaving side d of node n (find_edges): resolvable extensions only
+EdgeSetOf(K, st, nodes, n, d) ==
+  UNION {Lookup(K, st, nodes, ExtK(TermK(K, nodes[n], d), d, b), d) : b \in BasesOf(nodes[n], d)}
+\* whenever u reaches v, v reaches u through the facing side (both sides of a palindromic single-k-mer node count as one)
+SymmetricGraph(K, st, nodes) ==
+  \A n \in 1..Len(nodes) : \A d \in {"L", "R"} : \A t \in EdgeSetOf(K, st, nodes, n, d) :
+     LET back(sd) == \E u \in EdgeSetOf(K, st, nodes, t[1], sd) : u[1] = n /\ (u[2] = d \/ PalNode(K, st, nodes[n]))
+     IN back(t[2]) \/ (PalNode(K, st, nodes[t[1]]) /\ back(Opp(t[2])))
 
 \* (K+1)-mers observed in the reads between retained k-mers
 ObsLinks(K, st, reads, keep) ==
